@@ -1,9 +1,11 @@
 package markdown
 
 import (
+	"bufio"
 	"bytes"
 	"context"
 	"fmt"
+	"html"
 	"io"
 	"io/fs"
 	"regexp"
@@ -16,6 +18,7 @@ import (
 	east "github.com/yuin/goldmark/extension/ast"
 	"github.com/yuin/goldmark/extension"
 	"github.com/yuin/goldmark/parser"
+	ghtml "github.com/yuin/goldmark/renderer/html"
 	"github.com/yuin/goldmark/text"
 
 	yaml "gopkg.in/yaml.v3"
@@ -305,8 +308,7 @@ func (m *Markdown) renderInlineChildren(w io.Writer, node ast.Node, src []byte) 
 func (m *Markdown) renderInlineNode(w io.Writer, node ast.Node, src []byte) error {
 	switch n := node.(type) {
 	case *ast.Text:
-		segment := string(n.Segment.Value(src))
-		if _, err := io.WriteString(w, segment); err != nil {
+		if err := writeText(w, n.Segment.Value(src), n.IsRaw()); err != nil {
 			return err
 		}
 		if n.HardLineBreak() {
@@ -317,8 +319,11 @@ func (m *Markdown) renderInlineNode(w io.Writer, node ast.Node, src []byte) erro
 		}
 		return nil
 	case *ast.String:
-		_, err := w.Write(n.Value)
-		return err
+		if n.IsCode() {
+			_, err := w.Write(n.Value)
+			return err
+		}
+		return writeText(w, n.Value, n.IsRaw())
 	case *ast.CodeSpan:
 		content := codeSpanContent(n, src)
 		return m.renderTemplate(w, "code_span", map[string]any{
@@ -376,6 +381,20 @@ func (m *Markdown) renderInlineNode(w io.Writer, node ast.Node, src []byte) erro
 	default:
 		return m.renderInlineChildren(w, node, src)
 	}
+}
+
+// writeText writes markdown text as HTML text. The inline content is later bound with
+// v-html, so literal characters of the source must arrive escaped: like the reference
+// renderer, character references and backslash escapes are resolved and the
+// HTML-significant characters (& < > ") are escaped.
+func writeText(w io.Writer, value []byte, raw bool) error {
+	bw := bufio.NewWriter(w)
+	if raw {
+		ghtml.DefaultWriter.RawWrite(bw, value)
+	} else {
+		ghtml.DefaultWriter.Write(bw, value)
+	}
+	return bw.Flush()
 }
 
 // inlineContent renders all inline children of a node and returns the result as a string.
@@ -446,6 +465,8 @@ var (
 // headingID generates a URL-friendly anchor id from heading content.
 func headingID(content string) string {
 	s := stripTagsRe.ReplaceAllString(content, "")
+	// content is rendered HTML: turn character references back into the characters they stand for
+	s = html.UnescapeString(s)
 	s = strings.ToLower(s)
 	s = nonAlphanumRe.ReplaceAllString(s, "")
 	s = strings.TrimSpace(s)
